@@ -2,6 +2,7 @@ import MockeryModel.Gen.Data
 import MockeryModel.Config.Merge
 import MockeryLemmas.Types
 import MockeryLemmas.Merge
+import MockeryModel.Generated.MergeFacts
 /-!
 # C13 — replace-type substitutes exactly the configured types
 
@@ -80,5 +81,87 @@ example :
     let alphaT := GoType.named "x/alpha" "alpha" "T" .defined [] false false
     let m : MethodIn := ⟨"Do", [⟨"r", ioReader, some alphaT⟩], [⟨"", ioReader, some alphaT⟩], false⟩
     ((methodData reg [] m).1.paths, (methodData reg [] m).2.2.1.map (·.typeString)) = (["x/alpha"], ["alpha.T", "alpha.T"]) := by decide
+
+
+/-! ## the lookup: exactly the configured (package path, type name) pairs
+
+`Generated.Merge.getReplacement` is `Config.GetReplacement`, translated from config/config.go on every run; a
+`replace-type` value is a two-level map (package path → type name → replacement), modelled as association lists. -/
+
+/-- first entry with the key (Go map lookup on an association list with unique keys) -/
+def assoc {α : Type} (k : String) : List (String × α) → Option α
+  | [] => none
+  | (k', v) :: r => if k' = k then some v else assoc k r
+
+/-- `GetReplacement` on a `replace-type` value -/
+def getReplacement (rt : ReplaceMap) (pkgPath typeName : String) : Option (String × String) :=
+  match assoc pkgPath rt with
+  | none => none
+  | some m => assoc typeName m
+
+/-- **model = translation** of the lookup -/
+theorem replacement_lookup_is_the_translated_source (rt : ReplaceMap) (pkgPath typeName : String) :
+    getReplacement rt pkgPath typeName =
+      Generated.Merge.getReplacement (fun p => assoc p rt) (fun m n => assoc n m) pkgPath typeName := by
+  unfold getReplacement Generated.Merge.getReplacement
+  cases h : assoc pkgPath rt <;> simp [h]
+
+theorem assoc_some_mem {α : Type} {k : String} {v : α} : ∀ {l : List (String × α)}, assoc k l = some v → (k, v) ∈ l
+  | [], h => by simp [assoc] at h
+  | (k', v') :: r, h => by
+    unfold assoc at h
+    by_cases hk : k' = k
+    · simp only [hk, if_true, Option.some.injEq] at h; subst h; subst hk; exact List.mem_cons_self
+    · simp only [hk, if_false] at h; exact List.mem_cons_of_mem _ (assoc_some_mem h)
+
+theorem assoc_none_of_not_key {α : Type} {k : String} : ∀ {l : List (String × α)}, k ∉ l.map (·.1) → assoc k l = none
+  | [], _ => rfl
+  | (k', v') :: r, h => by
+    unfold assoc
+    have h1 : k' ≠ k := fun e => h (by simp [e])
+    have h2 : k ∉ r.map (·.1) := fun m => h (by simp [m])
+    simp [h1, assoc_none_of_not_key h2]
+
+/-- **only configured types are replaced**: a hit comes from an entry written for exactly this package path and this
+type name; a type whose package has no entry, or whose name is not listed under its package, is never replaced -/
+theorem only_configured_types_are_replaced (rt : ReplaceMap) (pkgPath typeName : String) :
+    (∀ r, getReplacement rt pkgPath typeName = some r →
+      ∃ m, (pkgPath, m) ∈ rt ∧ (typeName, r) ∈ m) ∧
+    (pkgPath ∉ rt.map (·.1) → getReplacement rt pkgPath typeName = none) ∧
+    (∀ m, assoc pkgPath rt = some m → typeName ∉ m.map (·.1) → getReplacement rt pkgPath typeName = none) := by
+  refine ⟨?_, ?_, ?_⟩
+  · intro r h
+    unfold getReplacement at h
+    cases hm : assoc pkgPath rt with
+    | none => simp [hm] at h
+    | some m => simp only [hm] at h; exact ⟨m, assoc_some_mem hm, assoc_some_mem h⟩
+  · intro h; simp [getReplacement, assoc_none_of_not_key h]
+  · intro m hm h; simp [getReplacement, hm, assoc_none_of_not_key h]
+
+/-- **every configured type is replaced**: the entry written for (package path, type name) is what the lookup returns
+(keys of a YAML mapping are unique: the first entry is the entry) -/
+theorem configured_type_is_replaced (pre post : ReplaceMap) (m : List (String × String × String)) (pkgPath typeName : String)
+    (r : String × String) (hpre : pkgPath ∉ pre.map (·.1)) (hm : assoc typeName m = some r) :
+    getReplacement (pre ++ (pkgPath, m) :: post) pkgPath typeName = some r := by
+  have : ∀ (pre : ReplaceMap), pkgPath ∉ pre.map (·.1) → assoc pkgPath (pre ++ (pkgPath, m) :: post) = some m := by
+    intro pre
+    induction pre with
+    | nil => intro _; simp [assoc]
+    | cons e es ih =>
+      intro h
+      have h1 : e.1 ≠ pkgPath := fun eq => h (by simp [eq])
+      have h2 : pkgPath ∉ es.map (·.1) := fun mm => h (by simp [mm])
+      obtain ⟨k, v⟩ := e
+      simp only [List.cons_append, assoc]
+      simp only [show k ≠ pkgPath from h1, if_false]
+      exact ih h2
+  simp [getReplacement, this pre hpre, hm]
+
+/-- a concrete table: `ext.Conn` is replaced, `ext.Options` and `other.Conn` are not -/
+example :
+    let rt : ReplaceMap := [("example.com/ext", [("Conn", ("example.com/svc", "FakeConn"))])]
+    getReplacement rt "example.com/ext" "Conn" = some ("example.com/svc", "FakeConn") ∧
+    getReplacement rt "example.com/ext" "Options" = none ∧
+    getReplacement rt "example.com/other" "Conn" = none := by decide
 
 end Mockery.C13
